@@ -737,7 +737,9 @@ func RlpMode(seed int64, n int, driver, keep string) ModeResult {
 			b := tree.sloppy(&t0, 1+r.Intn(qNumQuirks-1))
 			if !bytes.Equal(b, raw) {
 				emit("tx-outer-quirk", "txdec", []string{hx(b)}, goTxDec(b))
-				if _, ok := txfull("tx-outer-quirk", b); ok {
+				// a quirk (e.g. a length prefix one too short) can shift the parse so that the bytes are the CANONICAL encoding of
+				// a different transaction; only an accepted byte string that decodes to the same content is a second encoding
+				if _, ok := txfull("tx-outer-quirk", b); ok && goTxDec(b) == goTxDec(raw) {
 					goFail("second-encoding", fmt.Sprintf("tx %x also accepted as %x", raw, b))
 				}
 			}
